@@ -59,6 +59,7 @@ from .. import exportworld as W
 from .. import export_runner as R
 from .. import exportvals as V
 from .. import exportscope as S
+from .. import exportrefs as XR
 from ..impl import mx, close_all, quiet, err_kind
 
 
@@ -1186,6 +1187,14 @@ def run(ctx, out):
             scope_formulas += len(qs)
             tasks.append(("scope", (ctx, [Case(idx, d, "scope/" + label)], None, [qs])))
             idx += 1
+    # object-valued references at every position relative to the reading formula's item (model level: no mode;
+    # space level: one mode per quick run, all in the thorough tier)
+    if not os.environ.get("VERIF_C15_NO_OBJREFS"):
+        modes = XR.MODES if ctx.tier != "quick" else (XR.MODES[ctx.seed % 3],)
+        for label, d, qs in XR.family(modes=modes):
+            d = dict(d, name="R%d" % idx)
+            tasks.append(("objrefs", (ctx, [Case(idx, d, "objrefs/" + label)], None, [qs])))
+            idx += 1
     programs = set()
     skipped_trigger = 0
     done = 0
@@ -1241,6 +1250,9 @@ def run(ctx, out):
                          "values_compared": per_phase.get("scope", {}).get("compared", 0),
                          "model_raises_not_compared": per_phase.get("scope", {}).get("model_raises", 0),
                          "templates": len(S.TEMPLATES), "contexts": len(S.CONTEXTS), "name_kinds": S.N_KINDS},
+        "objref_family": {"values_compared": per_phase.get("objrefs", {}).get("compared", 0),
+                          "model_raises_not_compared": per_phase.get("objrefs", {}).get("model_raises", 0),
+                          "targets": len(XR.TARGETS), "modes": list(XR.MODES)},
         "worker_processes": min(n_jobs(), len(tasks)),
         "value_kinds": [k.id for k in V.KINDS],
         "input_distribution": {"profiles": profiles, "features": features, "counters": stats,
